@@ -22,6 +22,16 @@ CHECKS = {
          "separated beyond numpy.allclose's tolerance",
     technique="symbolic execution of the real numpy code on z3 reals + SMT (QF_LRA) per path",
     design_ref="DESIGN.md §3 C13"),
+ "C12": dict(
+    text="Order laws (facet characterisation, reflexive, transitive, translation/scale invariance, antisymmetry, batched = "
+         "per-row) are proved by z3 on the merged symbolic value of the real dominates/is_inside code for every cone of the "
+         "set and for a fully symbolic 2x2 (thorough: 3x2, 3x3) cone matrix; the θ-cone's angle semantics is proved for all "
+         "θ in (0,180) at once on the symbolic output of the real get_2d_w (half-angle parametrisation), 3-D and ice-cream "
+         "cones on the real constructors' output in exact arithmetic.",
+    note=REAL + "trusted trig identities tan(π/4∓h)=(c∓s)/(c±s), tan(π/2−θ)=cosθ/sinθ; ice-cream half-angle on a grid "
+         "(symbolic θ did not terminate in nlsat); mpmath enclosures with 1e-9 band at concrete angles",
+    technique="symbolic execution of the real numpy code on z3 reals + SMT (QF_LRA/QF_NRA)",
+    design_ref="DESIGN.md §3 C12"),
 }
 
 _WIP = "check not built yet (work in progress; will be claimed once its harness exists)"
